@@ -370,6 +370,35 @@ impl Fault {
     }
 }
 
+/// A point INSIDE a checkpoint pass at which the caller's own task can run
+/// (every callback is an await point; the granular protocols are separate
+/// API calls with caller code in between).
+#[derive(Clone, Copy, Debug, PartialEq, Eq, Serialize, Deserialize)]
+pub enum Site {
+    /// inside the j-th node callback, before it acknowledges the write
+    Node(usize),
+    /// FlushWith: inside the ids callback; Granular / GranularWith: between
+    /// `store_dirty_nodes` and `store_ids`. (The two writers of `flush` are
+    /// synchronous `io::Write`s without an await: no site.)
+    Ids,
+    /// FlushWith / GranularWith: inside the metadata callback; Granular:
+    /// between `store_ids` and `store_metadata`.
+    Meta,
+    /// inside the j-th `purge_removed_nodes` callback, before it acknowledges the delete
+    Purge(usize),
+}
+
+impl Site {
+    pub fn class(&self) -> &'static str {
+        match self {
+            Site::Node(_) => "node_cb",
+            Site::Ids => "ids_cb",
+            Site::Meta => "meta_cb",
+            Site::Purge(_) => "purge_cb",
+        }
+    }
+}
+
 /// What one checkpoint pass did.
 #[derive(Clone, Debug, Default)]
 pub struct Pass {
@@ -384,6 +413,9 @@ pub struct Pass {
     /// calls of the node callback / the purge callback (including the faulted one)
     pub node_calls: usize,
     pub purge_calls: usize,
+    /// the sites (other than node / purge callbacks) this protocol offered
+    pub ids_site: bool,
+    pub meta_site: bool,
 }
 
 /// `std::io::Write` that keeps what it is given (one durable object) and
@@ -432,7 +464,17 @@ fn injected() -> BoxError {
 /// was replaced) and is returned in issue order. Nothing is applied to a
 /// store here.
 pub fn checkpoint_pass(index: &HnswIndex, proto: Proto, now_ms: u64, fault: Fault) -> Pass {
+    checkpoint_pass_hooked(index, proto, now_ms, fault, &|_, _| {})
+}
+
+/// The same; `hook(site, id)` runs at every `Site` of the pass (id = the node
+/// being written / the blob being deleted), from inside the callback and
+/// BEFORE the callback records its write and answers — i.e. while the index's
+/// own future is suspended at that await. The hook may mutate the index.
+pub fn checkpoint_pass_hooked(index: &HnswIndex, proto: Proto, now_ms: u64, fault: Fault, hook: &dyn Fn(Site, Option<u64>)) -> Pass {
     use std::cell::Cell;
+    let ids_site = Cell::new(false);
+    let meta_site = Cell::new(false);
     let seq = Cell::new(0u64);
     let tick = || {
         let s = seq.get();
@@ -450,6 +492,7 @@ pub fn checkpoint_pass(index: &HnswIndex, proto: Proto, now_ms: u64, fault: Faul
     let node_cb = |id: u64, data: Vec<u8>| -> Result<bool, BoxError> {
         let c = node_calls.get();
         node_calls.set(c + 1);
+        hook(Site::Node(c), Some(id));
         match fault {
             Fault::NodeStop(j) if j == c => {
                 hit.set(true);
@@ -475,6 +518,8 @@ pub fn checkpoint_pass(index: &HnswIndex, proto: Proto, now_ms: u64, fault: Faul
                 now_ms,
                 |id, data| std::future::ready(node_cb(id, data)),
                 |data| {
+                    ids_site.set(true);
+                    hook(Site::Ids, None);
                     std::future::ready(if fault == Fault::IdsErr {
                         hit.set(true);
                         Err(injected())
@@ -485,6 +530,8 @@ pub fn checkpoint_pass(index: &HnswIndex, proto: Proto, now_ms: u64, fault: Faul
                     })
                 },
                 |data| {
+                    meta_site.set(true);
+                    hook(Site::Meta, None);
                     std::future::ready(if fault == Fault::MetaErr {
                         hit.set(true);
                         Err(injected())
@@ -532,6 +579,8 @@ pub fn checkpoint_pass(index: &HnswIndex, proto: Proto, now_ms: u64, fault: Faul
             if stopped.get() {
                 break 'g;
             }
+            ids_site.set(true);
+            hook(Site::Ids, None);
             let mut ids_w = RecWriter::new(&seq, fault == Fault::IdsErr);
             let r = index.store_ids(&mut ids_w);
             if fault == Fault::IdsErr && ids_w.asked {
@@ -543,6 +592,8 @@ pub fn checkpoint_pass(index: &HnswIndex, proto: Proto, now_ms: u64, fault: Faul
             }
             events.borrow_mut().push((ids_w.first_seq.unwrap_or_else(&tick), Write::Ids(std::mem::take(&mut ids_w.buf))));
             if proto == Proto::Granular {
+                meta_site.set(true);
+                hook(Site::Meta, None);
                 let mut meta_w = RecWriter::new(&seq, fault == Fault::MetaErr);
                 let r = index.store_metadata(&mut meta_w, now_ms);
                 if fault == Fault::MetaErr && meta_w.asked {
@@ -558,6 +609,8 @@ pub fn checkpoint_pass(index: &HnswIndex, proto: Proto, now_ms: u64, fault: Faul
                 }
             } else {
                 let r = vcore::util::now(index.store_metadata_with(now_ms, async |data: &[u8]| {
+                    meta_site.set(true);
+                    hook(Site::Meta, None);
                     if fault == Fault::MetaErr {
                         hit.set(true);
                         Err(injected())
@@ -580,6 +633,7 @@ pub fn checkpoint_pass(index: &HnswIndex, proto: Proto, now_ms: u64, fault: Faul
         let r = vcore::util::now(index.purge_removed_nodes(async |id| {
             let c = purge_calls.get();
             purge_calls.set(c + 1);
+            hook(Site::Purge(c), Some(id));
             match fault {
                 Fault::PurgeStop(j) if j == c => {
                     hit.set(true);
@@ -610,6 +664,8 @@ pub fn checkpoint_pass(index: &HnswIndex, proto: Proto, now_ms: u64, fault: Faul
         error,
         node_calls: node_calls.get(),
         purge_calls: purge_calls.get(),
+        ids_site: ids_site.get(),
+        meta_site: meta_site.get(),
     }
 }
 
